@@ -47,7 +47,7 @@ func c17ID(m *pb.Message) string {
 }
 
 func TestVerifC17Gossip(t *testing.T) {
-	vRun(t, "C17.gossip", vCount(400, 10000), func(c *vCase) {
+	vRun(t, "C17.gossip", vCount(400, 30000), func(c *vCase) {
 		c.Bubble(func() {
 			params := vFastParams()
 			params.D, params.Dlo, params.Dhi, params.Dscore, params.Dout = 2, 1, 3, 1, 0
@@ -534,7 +534,7 @@ func TestVerifC17Gossip(t *testing.T) {
 // validators take anything from no time to longer than the follow-up time
 // (a message that sits in validation has arrived).
 func TestVerifC17Promise(t *testing.T) {
-	vRun(t, "C17.promise", vCount(300, 6000), func(c *vCase) {
+	vRun(t, "C17.promise", vCount(300, 20000), func(c *vCase) {
 		c.Bubble(func() {
 			params := vFastParams()
 			params.D, params.Dlo, params.Dhi, params.Dscore, params.Dout = 2, 1, 3, 1, 0
